@@ -148,6 +148,117 @@ var endpoints = []endpoint{
 
 	{Pos: "PFrom", Name: "POST mount from=<w>", Method: "POST", Path: func(w string) string { return "/v2/" + okRepo + "/blobs/uploads/" },
 		Query: func(w string) url.Values { return url.Values{"mount": {okDigest}, "from": {w}} }, WKey: "from", Backend: "MountBlob", Arg: 0, Others: map[int]string{1: okRepo, 2: okDigest}},
+
+	// APPEND ONLY below this line: corpus files and main.go refer to endpoints by index.
+	//
+	// The same query parameters with their sibling parameters absent, empty or extra. The router
+	// reads ?mount= first, then ?from=, then ?digest=: a digest that is looked at must be valid
+	// whatever the siblings are (a mount without a from falls back to "start upload" - the
+	// backend call is then the evidence, the digest is not handed on).
+	{Pos: "PDigest", Name: "POST mount=<d> (no from)", Method: "POST", Path: func(w string) string { return "/v2/" + okRepo + "/blobs/uploads/" },
+		Query: func(w string) url.Values { return url.Values{"mount": {w}} }, WKey: "mount", Backend: "PushBlobChunked", Arg: -1, Others: map[int]string{0: okRepo}},
+	{Pos: "PDigest", Name: "POST mount=<d>&from= (empty from)", Method: "POST", Path: func(w string) string { return "/v2/" + okRepo + "/blobs/uploads/" },
+		Query: func(w string) url.Values { return url.Values{"mount": {w}, "from": {""}} }, WKey: "mount", Backend: "PushBlobChunked", Arg: -1, Others: map[int]string{0: okRepo}},
+	{Pos: "PDigest", Name: "POST mount=<d>&digest=<ok> (no from)", Method: "POST", Path: func(w string) string { return "/v2/" + okRepo + "/blobs/uploads/" },
+		Query: func(w string) url.Values { return url.Values{"mount": {w}, "digest": {okDigest}} }, WKey: "mount", Backend: "PushBlobChunked", Arg: -1, Others: map[int]string{0: okRepo}},
+	{Pos: "PDigest", Name: "POST mount=<d>&from=<r>&digest=<ok>", Method: "POST", Path: func(w string) string { return "/v2/" + okRepo + "/blobs/uploads/" },
+		Query: func(w string) url.Values { return url.Values{"mount": {w}, "from": {okRepo2}, "digest": {okDigest}} }, WKey: "mount", Backend: "MountBlob", Arg: 2, Others: map[int]string{0: okRepo2, 1: okRepo}},
+	{Pos: "PDigest", Name: "POST digest=<d>&mount= (empty mount)&from=<r>", Method: "POST", Path: func(w string) string { return "/v2/" + okRepo + "/blobs/uploads/" },
+		Query: func(w string) url.Values { return url.Values{"digest": {w}, "mount": {""}, "from": {okRepo2}} }, WKey: "digest", Backend: "PushBlob", Arg: 1, Others: map[int]string{0: okRepo}},
+	{Pos: "PDigest", Name: "POST digest=<d>&from=<r> (no mount)", Method: "POST", Path: func(w string) string { return "/v2/" + okRepo + "/blobs/uploads/" },
+		Query: func(w string) url.Values { return url.Values{"digest": {w}, "from": {okRepo2}} }, WKey: "digest", Backend: "PushBlob", Arg: 1, Others: map[int]string{0: okRepo}},
+	{Pos: "PDigest", Name: "PUT blobs/uploads/<id>?digest=<d>&mount=<ok>&from=<r>", Method: "PUT", Path: func(w string) string { return "/v2/" + okRepo + "/blobs/uploads/" + okUploadID64 },
+		Query: func(w string) url.Values { return url.Values{"digest": {w}, "mount": {okDigest}, "from": {okRepo2}} }, WKey: "digest", Backend: "PushBlobChunkedResume", Arg: -1, Others: map[int]string{0: okRepo, 1: okUploadID}},
+	{Pos: "PRepo", Name: "POST mount (to), no from", Method: "POST", Path: func(w string) string { return "/v2/" + w + "/blobs/uploads/" },
+		Query: func(w string) url.Values { return url.Values{"mount": {okDigest}} }, Backend: "PushBlobChunked", Arg: 0},
+	{Pos: "PRepo", Name: "POST mount (to), empty from", Method: "POST", Path: func(w string) string { return "/v2/" + w + "/blobs/uploads/" },
+		Query: func(w string) url.Values { return url.Values{"mount": {okDigest}, "from": {""}} }, Backend: "PushBlobChunked", Arg: 0},
+	{Pos: "PRepo", Name: "POST blobs/uploads (no trailing slash)", Method: "POST", Path: func(w string) string { return "/v2/" + w + "/blobs/uploads" }, Backend: "PushBlobChunked", Arg: 0},
+	{Pos: "PRepo", Name: "PUT manifests/<tag>", Method: "PUT", Path: func(w string) string { return "/v2/" + w + "/manifests/sometag" }, Backend: "PushManifest", Arg: 0, Others: map[int]string{1: "sometag"}},
+	{Pos: "PRepo", Name: "DELETE blobs/<d>", Method: "DELETE", Path: func(w string) string { return "/v2/" + w + "/blobs/" + okDigest }, Backend: "DeleteBlob", Arg: 0, Others: map[int]string{1: okDigest}},
+	{Pos: "PRepo", Name: "PATCH blobs/uploads/<id>", Method: "PATCH", Path: func(w string) string { return "/v2/" + w + "/blobs/uploads/" + okUploadID64 }, Backend: "PushBlobChunkedResume", Arg: 0, Others: map[int]string{1: okUploadID}},
+}
+
+// ---------------------------------------------------------------- server options
+
+// optConfig is one configuration of ociserver.Options. The routing decision for a string in a
+// URL position must be the same under every one of them (the options change what is sent back,
+// or switch a whole endpoint off - never which names, tags and digests are accepted).
+type optConfig struct {
+	Name string
+	Opts func() *ociserver.Options
+}
+
+func noLocations(bool, ociregistry.Descriptor) ([]string, error) { return nil, nil }
+func noUploadLocation(string) (string, error)                    { return "", nil }
+
+var optConfigs = []optConfig{
+	{"", func() *ociserver.Options { return nil }},
+	{"DisableReferrersAPI", func() *ociserver.Options { return &ociserver.Options{DisableReferrersAPI: true} }},
+	{"DisableSinglePostUpload", func() *ociserver.Options { return &ociserver.Options{DisableSinglePostUpload: true} }},
+	{"MaxListPageSize", func() *ociserver.Options { return &ociserver.Options{MaxListPageSize: 1} }},
+	{"OmitDigestFromTagGetResponse", func() *ociserver.Options { return &ociserver.Options{OmitDigestFromTagGetResponse: true} }},
+	{"OmitLinkHeaderFromResponses", func() *ociserver.Options { return &ociserver.Options{OmitLinkHeaderFromResponses: true} }},
+	{"Locations", func() *ociserver.Options {
+		return &ociserver.Options{LocationsForDescriptor: noLocations, LocationForUploadID: noUploadLocation}
+	}},
+	{"all", func() *ociserver.Options {
+		return &ociserver.Options{DisableReferrersAPI: true, DisableSinglePostUpload: true, MaxListPageSize: 1,
+			OmitDigestFromTagGetResponse: true, OmitLinkHeaderFromResponses: true,
+			LocationsForDescriptor: noLocations, LocationForUploadID: noUploadLocation,
+			WriteError: func(w http.ResponseWriter, _ *http.Request, err error) { ociregistry.WriteError(w, err) },
+			DebugID:    "c17"}
+	}},
+}
+
+func optLabel(name string) string {
+	if name == "" {
+		return "default"
+	}
+	return name
+}
+
+func optConfigByName(name string) optConfig {
+	for _, oc := range optConfigs {
+		if oc.Name == name {
+			return oc
+		}
+	}
+	panic("harness: unknown server option configuration " + name)
+}
+
+// expectation is the backend call that is the evidence of acceptance for endpoint ep under
+// the named option configuration - as documented for the options: DisableReferrersAPI switches
+// the referrers endpoint off (applies = false: nothing to observe there), DisableSinglePostUpload
+// turns POST ?digest= into "start upload" (the digest is still validated by the router but
+// not handed on), a LocationsForDescriptor function makes GET blobs resolve the blob first.
+//
+// An empty query value is an absent parameter (url.Values.Get): where the evidence of acceptance
+// is the "start upload" call that an absent parameter leads to as well, the empty string cannot
+// be observed (applies = false).
+func expectation(ep endpoint, opts string, w string) (endpoint, bool) {
+	is := func(o string) bool { return opts == o || opts == "all" }
+	if is("DisableReferrersAPI") && ep.Backend == "Referrers" {
+		return ep, false
+	}
+	if is("DisableSinglePostUpload") && ep.Backend == "PushBlob" {
+		ep.Backend = "PushBlobChunked"
+		if ep.Arg != 0 {
+			ep.Arg = -1
+		}
+		others := map[int]string{}
+		if v, ok := ep.Others[0]; ok {
+			others[0] = v
+		}
+		ep.Others = others
+	}
+	if is("Locations") && ep.Backend == "GetBlob" {
+		ep.Backend = "ResolveBlob"
+	}
+	if w == "" && ep.WKey != "" && ep.Arg < 0 && ep.Backend == "PushBlobChunked" {
+		return ep, false
+	}
+	return ep, true
 }
 
 // ---------------------------------------------------------------- spellings
@@ -221,6 +332,7 @@ func canonicalSpelling(w string, inQuery bool) string {
 
 type routeObs struct {
 	Endpoint string    `json:"endpoint"`
+	Options  string    `json:"server_options"`
 	Path     string    `json:"path"`
 	Query    string    `json:"query,omitempty"`
 	Target   string    `json:"request_target,omitempty"` // the request line's target, when a spelling was given
@@ -287,14 +399,14 @@ func buildRequest(ep endpoint, w string, raw *string) (*http.Request, string) {
 	return req, target
 }
 
-func runRoute(epIdx int, w string, raw *string) (string, routeObs) {
-	ep := endpoints[epIdx]
+func runRoute(epIdx int, w string, raw *string, opts string) (string, routeObs) {
+	ep, _ := expectation(endpoints[epIdx], opts, w)
 	var log []bcall
-	h := ociserver.New(recordingBackend(&log), nil)
+	h := ociserver.New(recordingBackend(&log), optConfigByName(opts).Opts())
 	req, target := buildRequest(ep, w, raw)
 	req = req.WithContext(context.Background())
 	rec := httptest.NewRecorder()
-	o := routeObs{Endpoint: ep.Name, Path: printable(req.URL.Path), Query: req.URL.RawQuery, Target: target}
+	o := routeObs{Endpoint: ep.Name, Options: optLabel(opts), Path: printable(req.URL.Path), Query: req.URL.RawQuery, Target: target}
 	panicked, pv := hx.Recover(func() { h.ServeHTTP(rec, req) })
 	o.Status = rec.Code
 	o.Calls = log
